@@ -122,14 +122,23 @@ def fold_involves_known_class(folds):
     return False
 
 
-def diagnose(d, code, cfg, rng, seeds):
+def diagnose(d, code, cfg, rng, seeds, deep=64, budget_s=120):
     """Is the divergence reproducible with the hash seed held fixed and only the unification fold order varied, on a
     program whose folds involve one of the evidence shapes recorded as non-associative under C16?"""
     base = {"op": "analyze", "code": code.hex(), "stage": "analyze", "cfg": cfg, "wd": BUDGET, "observe": ["class_folds"]}
-    for s in seeds:
+    # first a few orders under every seed, then - the dependence can be as rare as one order in forty - many more
+    # shuffles under the first seeds
+    plan = [(s, [("sorted", 0), ("reversed", 0)] + [("shuffle", k) for k in range(1, 7)]) for s in seeds]
+    more = list(seeds) + [rng.getrandbits(40) for _ in range(24)]
+    plan += [(s, [("sorted", 0)] + [("shuffle", k) for k in range(7, 7 + deep)]) for s in more]
+    import time
+    t_start = time.time()
+    for pi, (s, orders) in enumerate(plan):
+        if pi >= len(seeds) + 2 and time.time() - t_start > budget_s:
+            break
         results = []
         folds = []
-        for mode, fs in [("sorted", 0), ("reversed", 0)] + [("shuffle", k) for k in range(1, 7)]:
+        for mode, fs in orders:
             r = d.call(dict(base, rand_seed=s, fold={"mode": mode, "seed": fs}), timeout=300)
             c = canon(r)
             if c is None:
